@@ -2,23 +2,24 @@
 # seedrun.sh <seed-dir> <property> [tier]: apply a seeded change to /repo, run the check, undo it.
 # Prints "CAUGHT|MISSED <name> by <property>" (CAUGHT = the check exited 1 with a VIOLATION line).
 d="${1:?seed dir}"; prop="${2:?property}"; tier="${3:-quick}"; name="$(basename "$d")"
-cd /repo || exit 2
-if [ -n "$(git status --porcelain --untracked-files=no)" ]; then echo "refusing: /repo has uncommitted changes"; exit 2; fi
-undo() { git -C /repo reset -q; git -C /repo checkout -q -- . ; }
+V="${VERIF_HOME:-/verif}"; R="${REPO_HOME:-/repo}"   # (an isolated copy of both can be used, see isolated_matrix.sh)
+cd "$R" || exit 2
+if [ -n "$(git status --porcelain --untracked-files=no)" ]; then echo "refusing: $R has uncommitted changes"; exit 2; fi
+undo() { git -C "$R" reset -q; git -C "$R" checkout -q -- . ; }
 trap undo EXIT
 if ! git apply "$d/patch.diff" 2>/dev/null; then
   git apply --3way "$d/patch.diff" >/dev/null 2>&1 || { echo "NOAPPLY $name"; exit 2; }
   git reset -q
 fi
-out="$(cd /verif && VERIF_EVIDENCE_DIR=/tmp/seedv/evidence ./check "$prop" "$tier" 2>&1)"; rc=$?
+out="$(cd "$V" && VERIF_REPO="$R" VERIF_EVIDENCE_DIR=/tmp/seedv/evidence ./check "$prop" "$tier" 2>&1)"; rc=$?
 undo
 res=MISSED
 if [ $rc -eq 1 ] && echo "$out" | grep -q "^VIOLATION property=$prop"; then res=CAUGHT; fi
-if [ -f "/verif/seeded/$name/meta.json" ]; then
-  python3 - "$name" "$prop" "$tier" "$res" <<'PY'
+if [ -f "$V/seeded/$name/meta.json" ]; then
+  python3 - "$name" "$prop" "$tier" "$res" "$V" <<'PY'
 import json,sys
-name,prop,tier,res=sys.argv[1:5]
-p=f"/verif/seeded/{name}/meta.json"; m=json.load(open(p))
+name,prop,tier,res,V=sys.argv[1:6]
+p=f"{V}/seeded/{name}/meta.json"; m=json.load(open(p))
 runs=[r for r in m.get("runs",[]) if not (r["check"]==prop and r["tier"]==tier)]
 runs.append({"check":prop,"tier":tier,"result":res})
 m["runs"]=runs; json.dump(m,open(p,"w"),indent=1)
